@@ -20,7 +20,8 @@ RULE += (
     " A separate unit delivers failures whose CLASS is special (StopIteration, a subclass of it, "
     "StopAsyncIteration, KeyError, a two-argument exception) from ErrorFuture / lazy future / batch item "
     "inside 11 yield shapes to a body that catches them in the frame that yielded: the very instance must "
-    "arrive."
+    "arrive. Exception class 'typed' (the class has an attribute of its own called _type_) is part of every "
+    "fault plan."
 )
 ASSUMPTIONS = [
     "faults are injected only where user code can put one (task bodies, flush bodies, value providers)",
